@@ -24,6 +24,7 @@ import signal
 import sqlite3
 import sqlite3.dbapi2 as dbapi2
 import struct
+import weakref
 
 from .core import EventLog, HarnessError
 
@@ -70,6 +71,25 @@ _CH = None          # (read fd, write fd) in a simulated child; None = pass-thro
 _LAST_KIND = [None]  # kind of the statement most recently attempted (for exception classification)
 _BYPASS = [0]        # DB-API calls that did not pass a scheduling point (reach probe)
 _PASS = [False]      # True while the child tears a run down (connections closed as at process exit)
+_CONNS = []              # weak references to the connections this body opened (to read their in_transaction flag)
+
+
+def _in_txn():
+    """ground truth from the sqlite3 module: is any connection of this body inside a transaction right now?"""
+    alive = False
+    for r in list(_CONNS):
+        c = r()
+        if c is None:
+            _CONNS.remove(r)
+            continue
+        try:
+            if c.in_transaction:
+                alive = True
+        except Exception:
+            pass
+    return alive
+
+
 _PREV_FAILED = [False]   # the statement executed last raised into the code under test (reported with the next point)
 _VNOW = [0]          # the simulator's virtual clock (ms), delivered with every token
 _CLOCK_INSTALLED = [False]
@@ -142,7 +162,7 @@ def _point(kind, sql, attempt):
     _LAST_KIND[0] = kind
     waited = 0
     n = 0
-    _send(_CH[1], ("yield", kind, sql, _PREV_FAILED[0]))
+    _send(_CH[1], ("yield", kind, sql, _PREV_FAILED[0], _in_txn()))
     _PREV_FAILED[0] = False
     while True:
         tok = _recv(_CH[0])
@@ -215,7 +235,9 @@ def _sim_connect(*a, **k):
         return _REAL_CONNECT(*a, **k)
     k["factory"] = SimConn
     k["timeout"] = 0
-    return _point("connect", "CONNECT", lambda: _REAL_CONNECT(*a, **k))
+    c = _point("connect", "CONNECT", lambda: _REAL_CONNECT(*a, **k))
+    _CONNS.append(weakref.ref(c))
+    return c
 
 
 def install_seam():
@@ -319,7 +341,7 @@ def _child_loop(child_main, child_teardown):
                 child_teardown()
             finally:
                 _PASS[0] = False
-        _send(_CH[1], ("done", _BYPASS[0], _PREV_FAILED[0]))
+        _send(_CH[1], ("done", _BYPASS[0], _PREV_FAILED[0], _in_txn()))
         _PREV_FAILED[0] = False
 
 
@@ -619,27 +641,25 @@ def simulate(scripts, child_main, child_teardown, cfg, sched_rng=None, fault_rng
             prev_failed = (m[3] if tag == "yield" and len(m) > 3 else (m[2] if tag == "done" and len(m) > 2 else False))
             never_ran = prev_failed == "busy"
             prev_failed = bool(prev_failed)
-            # who holds the write lock, and does it hold it only for the window every writer needs?
+            # Who holds the write lock, and only for the window every writer needs?
+            #   ground truth: the body reports whether one of its connections is inside a transaction (sqlite3's own flag);
+            #   a process holds the WRITE lock if it is inside a transaction in which it executed a write statement.
             #   needed:   [successful write .. its commit]   and   [failed write .. its rollback]
-            #   needless: any other statement executed while the write transaction is open
-            if executed_kind in ("commit", "rollback", "close"):
-                if not (prev_failed or inject):
-                    p.txn_open = False
-                    p.clean_hold = True
-                    p.injected_failure = False
-                else:
-                    p.injected_failure = p.injected_failure or bool(inject)
-            elif is_write_kind(executed_kind) and never_ran:
-                pass                               # lock time-out: the statement had no effect and holds nothing
-            elif is_write_kind(executed_kind):
-                if p.txn_open:
-                    p.clean_hold = False           # a further statement inside an already open write transaction
-                if not inject:
+            #   needless: any other statement executed while that transaction is open
+            in_txn = bool(m[4]) if tag == "yield" and len(m) > 4 else (bool(m[3]) if tag == "done" and len(m) > 3 else False)
+            if not in_txn:
+                p.txn_open = False
+                p.clean_hold = True
+                p.injected_failure = False
+            else:
+                if is_write_kind(executed_kind) and not never_ran and not inject:
+                    if p.txn_open:
+                        p.clean_hold = False       # a further write inside an already open write transaction
                     p.txn_open = True
-                if inject:
+                elif p.txn_open and executed_kind not in ("start", "commit", "rollback", "close"):
+                    p.clean_hold = False           # reads / reflection while the write lock is held
+                if inject and p.txn_open:
                     p.injected_failure = True
-            elif p.txn_open and executed_kind not in ("start",):
-                p.clean_hold = False               # reads / reflection while the write lock is held
             if tag == "yield":
                 p.pending = (m[1], m[2], "")
                 log.add(p.idx, "exec", [executed_kind, m[1]])
